@@ -173,6 +173,9 @@ def _log_hazards(ctx, col):
 
 
 def run(ctx: Context, col) -> None:
+    from .common import Parts
+
+    part = Parts()
     # ---- triage of all call sites
     sites = _call_sites(ctx)
     seen_keys = set()
@@ -189,14 +192,15 @@ def run(ctx: Context, col) -> None:
         verdict, reason = tri
         col.add("R13.1", construct, cls.module.relpath, c.lineno, verdict == "closed",
                 f"{callee}: {reason}", text=f"{callee} [{verdict}]")
-    _log_hazards(ctx, col)
+    part(_log_hazards, ctx, col)
     missing = [k for k in TRIAGE if k not in seen_keys]
     if missing:
         raise AnalysisError(f"anchor vanished: triaged distribution call sites no longer exist: {missing}")
-    _demoor(ctx, col)
-    _mirjalili(ctx, col)
-    _hendrix_pairs(ctx, col)
-    _forest(ctx, col)
+    part(_demoor, ctx, col)
+    part(_mirjalili, ctx, col)
+    part(_hendrix_pairs, ctx, col)
+    part(_forest, ctx, col)
+    part.finish()
     col.floor("R13.5", 4)
     col.floor("R13.1", 14)
     col.floor("R13.2", 2)
